@@ -291,6 +291,39 @@ def run(ctx):
                         ctx.violation("units", f"{cls.__name__}.{field} = {given!r} accepted (stored {getattr(obj, field)!r}) although {bad} is not a unit of {cu.physical_type}", {"field": field, "given": repr(given)})
                     except Exception:
                         pass
+            # the same text that a compatible field has just accepted must still be rejected here
+            # (a parse memo keyed on the text alone would hand back the other field's value)
+            for k2, sps in UNIT_SPELLINGS.items():
+                if k2 == key or canon[k2].physical_type == cu.physical_type:
+                    continue
+                prim = [f for f in fields if f[2] == k2]
+                for sp2 in sps[:3]:
+                    for val in ("5.0", "10.0", "150.0"):
+                        text = f"{val} {sp2}"
+                        pc, pf, _ = prim[0]
+                        pkw = {pf: text}
+                        if pf == "low_frequency":
+                            pkw["high_frequency"] = 1e30
+                        try:
+                            pc(**pkw)  # priming: accepted where it is compatible
+                        except Exception:
+                            continue
+                        try:
+                            if Quantity(text).unit.is_equivalent(cu):
+                                continue
+                        except Exception:
+                            continue
+                        kw = {field: text}
+                        if field == "low_frequency":
+                            kw["high_frequency"] = 1e30
+                        if field == "high_frequency":
+                            kw["low_frequency"] = -1e30
+                        ctx.count("units-rejected-after-accept")
+                        try:
+                            obj = cls(**kw)
+                            ctx.violation("units", f"{cls.__name__}.{field} = {text!r} accepted (stored {getattr(obj, field)!r}) right after {pc.__name__}.{pf} accepted the same text: not a unit of {cu.physical_type}", {"field": field, "given": text, "after": f"{pc.__name__}.{pf}"})
+                        except Exception:
+                            pass
             # bare numbers
             # (numbers of every numeric type a user's arrays and loops produce: np.arange gives np.int64,
             #  a table column np.float32, ...)
@@ -407,7 +440,7 @@ def run(ctx):
                 ctx.violation("cli", f"create-config {' '.join(argv)}: field {diffs[0][0]} is {diffs[0][2]!r}, expected {diffs[0][1]!r}", {"argv": argv})
     finally:
         shutil.rmtree(work, ignore_errors=True)
-    for m in ("roundtrip", "none-section", "units", "units-rejected", "units-bare", "band", "month", "month-rejected", "cli"):
+    for m in ("roundtrip", "none-section", "units", "units-rejected", "units-rejected-after-accept", "units-bare", "band", "month", "month-rejected", "cli"):
         ctx.require(m)
     return ctx.finish(
         rule="round trip: seeded configurations over every spectrum/cloud variant with floats from {0, -0, denormal, 1e+-300, max double, 0.1+0.2, random over 17 decades}, 26 hostile strings (quotes, backslashes, control characters, CR LF / lone CR / leading and double newlines, non-ASCII, TOML syntax look-alikes, empty) and boundary integers; units: 15 unit-bearing fields x 3-12 spellings x values x {string, Quantity}, incompatible units, bare numbers; 14 band specifications x 3 routes; 120 month spellings + 12 invalid; 13 CLI invocations; a case is a distinct configuration / (field, spelling, value, form) / specification",
